@@ -268,7 +268,7 @@ func (t inProcess) RoundTrip(req *http.Request) (*http.Response, error) {
 		return nil, fmt.Errorf("harness: request does not parse as HTTP: %w\n%s", err, wire.String())
 	}
 	body, _ := io.ReadAll(sreq.Body)
-	sreq.Body = io.NopCloser(bytes.NewReader(body))
+	sreq.Body = io.NopCloser(&shortReads{r: bytes.NewReader(body)})
 	c := &capture{Method: sreq.Method, URI: sreq.RequestURI, Header: sreq.Header.Clone(), Body: string(body)}
 	rec := httptest.NewRecorder()
 	if p, pv, st := hx.Try(func() { t.w.handler.ServeHTTP(rec, sreq) }); p {
@@ -278,12 +278,23 @@ func (t inProcess) RoundTrip(req *http.Request) (*http.Response, error) {
 	res := rec.Result()
 	res.Request = req
 	rb, _ := io.ReadAll(res.Body)
-	res.Body = io.NopCloser(bytes.NewReader(rb))
+	res.Body = io.NopCloser(&shortReads{r: bytes.NewReader(rb)})
 	c.Status, c.RespHdr, c.RespBody = res.StatusCode, res.Header.Clone(), string(rb)
 	if t.cap != nil {
 		t.cap(c)
 	}
 	return res, nil
+}
+
+// shortReads hands out a body the way a network connection may: at most 61 bytes per Read (io.Reader allows short
+// reads; code that assumes one Read returns the whole body loses the rest).
+type shortReads struct{ r io.Reader }
+
+func (s *shortReads) Read(p []byte) (int, error) {
+	if len(p) > 61 {
+		p = p[:61]
+	}
+	return s.r.Read(p)
 }
 
 type serverCrash struct{ value, stack string }
